@@ -728,6 +728,12 @@ def check_C03(ctx):
     for per in (3, 4, 7):
         many.append({"op": "run", "env": {}, "version": None, "root": gen.mkcmd("app", decls=copy.deepcopy(kd6), spec="(-a | -b | -c | -d | -e | -f)...", policy=0),
                      "argv": ["-" + ch for _ in range(per) for ch in "abcdef"] + ["-Z"], "_distinct": 6, "_occ": 6 * per})
+    # (6) very long lines (thousands of file names, of repetitions of one flag): accepted or rejected, within the deadline --
+    # the cost of a step must not grow with what is left of the line (D13)
+    for sp, tok, n_, tail in (("SRC...", "x", 16000, []), ("-a...", "-a", 12000, []), ("SRC... X", "x", 16000, []),
+                              ("[-a]... SRC...", "x", 12000, ["-Z"]), ("(SRC X | SRC)...", "x", 8000, ["-Z"])):
+        ld = [gen.mkopt("bool", "a", **{"def": ["false"]}), gen.mkarg("strings", "SRC"), gen.mkarg("string", "X", **{"def": [""]})]
+        many.append({"op": "run", "env": {}, "version": None, "root": gen.mkcmd("app", decls=ld, spec=sp, policy=0), "argv": [tok] * n_ + tail})
     number(many, start=10 ** 6)
     mres = core.run_impl(many, timeout_ms=10000)
     k3 = [r for kind_, prop_, r in core.known_findings() if kind_ == "known" and prop_ == "C03" and "id=K3" in r]
